@@ -29,7 +29,10 @@ RULE = (
     "API functions decide finiteness, [0,1], own nucleus 1 / other nuclei 0 on EVERY call (including every internal chunk). The number of "
     "generate_weights calls per __call__ is counted from the hook. becke-structured is a seed-independent grid over atom count x geometry x "
     "element kind; becke-axis sweeps all 86 partners of one element along the internuclear axis (monotone cell function). Hirshfeld: H,C,N,O "
-    "molecules, per-atom calls sum to one, values equal an own natural-cubic-spline share. A case is non-trivial when at least one group "
+    "molecules, per-atom calls sum to one, values equal an own natural-cubic-spline share. input-forms: the same VALUES (chosen representable) are handed "
+    "over as int64/int32 lattices (np.mgrid), float32, strided row/column views, Fortran order, read-only arrays, int32/float atnums, for points and/or "
+    "atcoords, through every route; the result must equal the one for the float64 C-contiguous copy (1e-13; float32 coordinates: within the "
+    "single-precision conditioning of the formula). A case is non-trivial when at least one group "
     "check was evaluated; distinct = distinct generator parameters."
 )
 ASSUMPTIONS = [
@@ -54,7 +57,7 @@ HIRSH_ELEMS = [1, 6, 7, 8]
 
 
 # ------------------------------------------------------------------ cases
-def _draw_m(rng):
+def _draw_m(rng, quick=False):
     u = rng.random()
     if u < 0.03:
         return 1
@@ -64,9 +67,9 @@ def _draw_m(rng):
         return 3
     if u < 0.70:
         return int(rng.integers(4, 9))
-    if u < 0.92:
+    if u < (0.95 if quick else 0.92):
         return int(rng.integers(9, 17))
-    if u < 0.98:
+    if u < (0.985 if quick else 0.98):
         return int(rng.integers(17, 31))
     return int(rng.integers(31, 41))
 
@@ -85,10 +88,12 @@ def cases(tier, seed):
             for ie, elem in enumerate(["uniform", "noble-run", "extreme"]):
                 if m == 1 and ig > 0:
                     continue
+                if q and ((m == 40 and ie != ig % 3) or (m == 27 and ie == (ig + 1) % 3)):
+                    continue  # quick: the two largest sizes with one / two element kinds per geometry
                 out.append(("becke-structured", {"M": m, "geom": geom, "elem": elem, "order": 1 + (im + ig + 2 * ie) % 6}, float(m) ** 3 + 50))
                 k += 1
-    for k in range(1500 if q else 24000):
-        m = _draw_m(rng)
+    for k in range(800 if q else 24000):
+        m = _draw_m(rng, q)
         out.append(("becke-random", {"k": k, "M": m, "geom": GEOMS[int(rng.integers(len(GEOMS)))], "elem": ELEMS[int(rng.integers(len(ELEMS)))], "order": int(rng.integers(1, 7))}, float(m) ** 3 + 50))
     for k in range(150 if q else 2500):
         m = int(rng.integers(1, 11))
@@ -104,7 +109,7 @@ def cases(tier, seed):
             out.append(("becke-axis", {"zA": za, "order": order}, 120.0))
     for k in range(24 if q else 240):
         out.append(("becke-molgrid", {"k": k, "M": int(rng.integers(2, 13)), "order": int(rng.integers(1, 7))}, 900.0))
-    for k in range(400 if q else 7000):
+    for k in range(300 if q else 7000):
         m = int(min(_draw_m(rng), 14))
         out.append(("hirshfeld-random", {"k": k, "M": m, "geom": GEOMS[int(rng.integers(len(GEOMS)))]}, 30.0 + 6.0 * m * m))
     for k in range(12 if q else 120):
@@ -568,7 +573,7 @@ def axis_case(ctx, params):
     rng = ctx.rng
     za, order = int(params["zA"]), int(params["order"])
     bw = BeckeWeights(order=order)
-    t = np.concatenate([np.linspace(0.0, 1.0, 1201), [0.5 - 1e-9, 0.5 + 1e-9]])
+    t = np.concatenate([np.linspace(0.0, 1.0, 601 if ctx.tier == "quick" else 1201), [0.5 - 1e-9, 0.5 + 1e-9]])
     t.sort()
     worst = 0.0
     for zb in range(1, 87):
@@ -787,8 +792,8 @@ FORMS = {
     "points-int32": (lambda x: x.astype(np.int32), _F64, _F64, (True, False), False),
     "points+atcoords-int64": (lambda x: x.astype(np.int64), lambda x: x.astype(np.int64), _F64, (True, True), False),
     "atcoords-int64": (_F64, lambda x: x.astype(np.int64), _F64, (False, True), False),
-    "points-float32": (lambda x: x.astype(np.float32), _F64, _F64, (False, False), False),
-    "atcoords-float32": (_F64, lambda x: x.astype(np.float32), _F64, (False, False), False),
+    "points-float32": (lambda x: x.astype(np.float32), _F64, _F64, (False, False), True),
+    "atcoords-float32": (_F64, lambda x: x.astype(np.float32), _F64, (False, False), True),
     "points+atcoords-float32": (lambda x: x.astype(np.float32), lambda x: x.astype(np.float32), _F64, (False, False), True),
     "points-strided-rows": (_rows_view, _F64, _F64, (False, False), False),
     "points-strided-columns": (_cols_view, _F64, _F64, (False, False), False),
@@ -833,7 +838,7 @@ def forms_case(ctx, params):
         gx, gy, gz = np.mgrid[lo[0] : hi[0] + 1, lo[1] : hi[1] + 1, lo[2] : hi[2] + 1]
         lat = np.stack([gx.ravel(), gy.ravel(), gz.ravel()], axis=1).astype(float)
         pts = lat[rng.permutation(len(lat))[: int(rng.integers(24, 49))]]
-        far = np.round(_unit(rng, 4) * np.array([30.0, 1e3, 1e5, 1e8])[:, None])
+        far = np.round(_unit(rng, 4) * np.array([30.0, 1e3, 1e5, 1e8])[:, None]).astype(np.float32).astype(np.float64)  # integers representable in float32
         pts = np.concatenate([pts, far])
     else:
         pts, _ = make_points(rng, at, 36, far_max=1e4)
@@ -888,7 +893,7 @@ def forms_case(ctx, params):
                         # everything in single precision: compare within the single-precision conditioning of the formula
                         if err32 is None:
                             continue
-                        ok = err32 < 1e-3
+                        ok = (err32 < 1e-3) & (np.spacing(np.float32(coord)).astype(float)[None, :] * 64.0 <= mon.min_atom_distance(at))
                         if not ok.any():
                             continue
                         ratio = np.where(ok, d / err32, 0.0)
@@ -924,8 +929,10 @@ def forms_case(ctx, params):
             try:
                 got = np.array([hw(fp(pts), fa(at), fnn(nums), np.array([0] * (i + 1) + [n] * (m - i))) for i in range(m)])
             except TypeError as exc:
-                if "atnums dtype" in str(exc) and name.startswith("atnums-") or "points-int64-strided" == name:
-                    ctx.count("input-form:hirshfeld-rejected-by-documented-dtype-check:" + name)
+                if "atnums dtype" in str(exc) and fnn(nums).dtype != np.int64:
+                    # the callee's own documented argument check ("atnums dtype should be int"): rejected, not a violation
+                    ctx.count("input-form:hirshfeld-rejects-atnums-dtype-" + str(fnn(nums).dtype))
+                    ctx.observe("HirshfeldWeights.__call__ rejects atnums arrays that are not int64 by its own documented TypeError check, BeckeWeights accepts them (not decided)", dtype=str(fnn(nums).dtype))
                     continue
                 ctx.fail("input-form-invariant", subj, "raised:TypeError", detail={"error": str(exc)[:200], **extra})
                 continue
